@@ -12,11 +12,30 @@ def run(chk):
     for i in range(0, len(names), 2):
         jobs.append(dict(prop='C05', docs=names[i:i + 2], scalar=True, json=True, timeout=120 if quick else 900, no_unicode_digits=quick))
     jobs.append(dict(prop='C05', forms=True, docs=['forms']))
+    # fully symbolic encoded scalars: every character an unconstrained code point (all strings of that length)
+    for n in (1, 2, 3, 4):
+        for v in ('', 'v2'):
+            jobs.append(dict(prop='C05', docs=['jshort%d%s' % (n, v)], scalar=True, json=True, ops=['all'], timeout=300))
+    if not quick:
+        codes = 'nsmzxrubdhtc-'
+        rest = []
+        nxt = 0
+        for o in sorted(ord(ch) for ch in codes):
+            if o > nxt:
+                rest.append([nxt, o - 1])
+            nxt = o + 1
+        rest.append([nxt, 0x10ffff])
+        for v in ('', 'v2'):
+            for part in [[[ord(ch), ord(ch)]] for ch in codes] + [rest]:
+                jobs.append(dict(prop='C05', docs=['jshort5' + v], scalar=True, json=True, ops=['all'], alphabet=part, timeout=1800))
+        for name in names:
+            jobs.append(dict(prop='C05', docs=[name], scalar=True, json=True, ops=['replace2'], timeout=1800))
     if chk.only:
         jobs = [j for j in jobs if chk.only in ','.join(j['docs'])]
     from ..spec import json_ref
     chk.bounds = dict(encoded_scalars=sorted('%s=%s' % (k, v[1]) for k, v in mutworker.JSON_DOCS.items()),
                       mutation='one symbolic code point replacing / inserted at every position of every encoded scalar; only paths on which the reference decoder accepts the text are claimed',
+                      fully_symbolic='every string of 1..4 (quick) / 1..5 (thorough) code points as an encoded scalar, versions 2.0 and 3.0; thorough: two adjacent symbolic characters at every position of the corpus',
                       forms='7 structural grid variants (rows missing / null / empty, rows omitting columns, raw numbers and booleans, nested list/dict/grid, both Remove spellings, nested values in metadata) x 5 input forms (dict, str, bytes, list of dicts, JSON array text), concrete')
     chk.assumptions = ['reference decoder = my recollection of the Haystack JSON encoding; uncertain points are rejected by the reference and thus outside the claim: ' + '; '.join(json_ref.UNCERTAIN),
                        'symbolic part drives jsonparser.parse_embedded_scalar (what grid parsing calls per value); replay goes through hszinc.parse_scalar with real JSON text',
